@@ -29,7 +29,7 @@ DEFAULT_PROFILE = dict(
     p_reg=0.0,
     p_noise=0.3, p_has_noise_flag=0.3, p_nsamples=0.25, p_bad_nsamples=0.3,
     p_restarts=0.45, p_hard=0.5,
-    p_growing=0.04, p_diag=0.2, p_regression=0.3, p_random_init=0.08,
+    p_growing=0.0, p_diag=0.2, p_regression=0.3, p_random_init=0.08,
     p_logging=0.85, p_print_progress=0.04,
     p_buggify=0.5,
     p_env_draws=0.3,
@@ -40,7 +40,7 @@ DEFAULT_PROFILE = dict(
     fault_kinds=['nan', '+inf', '-inf', '1e200', 'raise'],
     allow_raise=True,
     p_int_dtype=0.05,
-    p_increase_npt=0.3, p_momentum=0.3,
+    p_increase_npt=0.3, p_momentum=0.3, p_far_from_origin=0.04,
 )
 
 
@@ -130,6 +130,11 @@ def draw(base_seed, index, prof=None, salt=''):
     else:
         rhobeg = default_rhobeg
         rhobeg_arg = None
+    if not scaling and rnd.random() < P['p_far_from_origin']:
+        # "far from the origin": |x0| / rhobeg up to 1e6, so that absolute and relative thresholds can be told apart
+        rhobeg = max(float(np.max(np.abs(x0))), 1.0) * rnd.choice([1e-6, 1e-5, 1e-4])
+        rhobeg_arg = rhobeg
+        feats.append('far_from_origin')
     # bounds are always generated against the *user-space* step size
     step = rhobeg if not scaling else None
     bounds = None
@@ -633,6 +638,8 @@ def derive_features(scn):
         f.add('argsf')
     if scn.get('arg_fault'):
         f.add('argfault:%s' % scn['arg_fault']['name'])
+    if eff['rhobeg'] <= 2e-4 * max(1.0, max(abs(v) for v in scn['x0'])):
+        f.add('far_from_origin')
     return sorted(f)
 
 
